@@ -34,6 +34,8 @@ type crashScen struct {
 	Cfg      seqCfg  `json:"cfg"`
 	Ops      []seqOp `json:"ops"`
 	MaxImgs  int     `json:"maxImgs"`  // cap on images explored (seeded sample beyond it)
+	// FinalOnly: only the image after the LAST file-system call (the complete run, no interruption) is recovered
+	FinalOnly bool `json:"finalOnly"`
 	Cont     []seqOp `json:"cont"`     // continuation after recovery
 	Legacy   *legacy `json:"legacy"`   // build a legacy-format store first (C10)
 	Mode     string  `json:"mode"`     // "" (C03) | "rebucket" (C09) | "upgrade" (C10)
@@ -395,6 +397,17 @@ func crashOnce(self, dir string, tr *core.Tracer, sc *crashScen, raw json.RawMes
 			for j := range cuts {
 				points = append(points, crashPoint{at: i, cut: j, done: done, inflight: inflight, closed: closed})
 			}
+		}
+	}
+	if sc.FinalOnly && len(points) > 0 {
+		best := -1
+		for i, p := range points {
+			if p.cut < 0 && (best < 0 || p.at >= points[best].at) {
+				best = i
+			}
+		}
+		if best >= 0 {
+			points = []crashPoint{points[best]}
 		}
 	}
 	if sc.MaxImgs > 0 && len(points) > sc.MaxImgs {
